@@ -37,10 +37,10 @@ KANI_UNITS = {
 
 # bounded runtime stand-ins: executable form of the contracts run against the real crate (never counted as proved)
 RT_UNITS = {
-    'rt_unsync': dict(props=['C01', 'C03', 'C04', 'C05', 'C06', 'C07', 'C08', 'C10', 'C11', 'C12', 'C13', 'C14', 'C15'],
+    'rt_unsync': dict(props=['C01', 'C03', 'C04', 'C05', 'C06', 'C07', 'C08', 'C10', 'C11', 'C12', 'C13', 'C14', 'C15', 'C17'],
                       attach={'src/unsync/cache.rs': 'rt/unsync_rt.rs'}, test='verif_rt_unsync', fn='unsync::Cache(runtime)',
                       what='runtime form of the unsync contracts executed against the real single-threaded cache after every operation (covers invalidate_entries_if, iter, evict_expired glue; live key/value objects counted)'),
-    'rt_sync': dict(props=['C01', 'C03', 'C04', 'C05', 'C06', 'C07', 'C08', 'C10', 'C11', 'C12', 'C13', 'C14', 'C15'],
+    'rt_sync': dict(props=['C01', 'C03', 'C04', 'C05', 'C06', 'C07', 'C08', 'C10', 'C11', 'C12', 'C13', 'C14', 'C15', 'C17'],
                     attach={'src/sync/cache.rs': ('rt/sync_rt.rs', 'verif_rt_sync_rt', False), 'src/sync/base_cache.rs': ('rt/sync_peek.rs', 'verif_rt_sync_peek', True)},
                     test='verif_rt_sync', fn='sync::Cache(runtime)',
                     what='the CONCURRENT cache in SEQUENTIAL histories only (no interleavings): with maintenance after every operation an executable specification of operation + maintenance run is compared with the physical state; with free sync placement lookups are checked against a reference model and counters/lists against the map after every sync()'),
